@@ -318,6 +318,17 @@ func worldRoutes(w *World) {
 			hs = append(hs, "Proxy-Authorization: "+[]string{"Bearer abcdef", "Basic !!!notbase64", "Basic " + base64.StdEncoding.EncodeToString([]byte(":onlypw")),
 				"Basic " + base64.StdEncoding.EncodeToString([]byte("nocolon")), "basic", ""}[r.Intn(6)])
 		}
+		// method and a few headers that special-case handling likes to key on
+		method := []string{"GET", "GET", "GET", "GET", "OPTIONS", "OPTIONS", "POST", "PUT", "DELETE", "PATCH"}[r.Intn(10)]
+		if k := r.Intn(8); k < 3 {
+			hs = append(hs, []string{"Access-Control-Request-Method: POST", "Origin: http://evil.example.test", "X-Requested-With: XMLHttpRequest"}[k])
+			if k == 0 && r.Intn(2) == 0 {
+				hs = append(hs, "Origin: http://app.example.test", "Access-Control-Request-Headers: authorization")
+			}
+		}
+		if method != "GET" && method != "OPTIONS" && method != "DELETE" {
+			hs = append(hs, "Content-Length: 0")
+		}
 		marker := fmt.Sprintf("m%d", r.U64())
 		target := path
 		if absolute {
@@ -351,7 +362,7 @@ func worldRoutes(w *World) {
 					hh = append(hh, [2]string{h[:i], h[i+2:]})
 				}
 			}
-			st, sb, err := h2cGet(fmt.Sprintf("10.0.3.%d", 230+r.Intn(10)), fmt.Sprintf("10.0.0.1:%d", vport), host, target, hh, 20*time.Second)
+			st, sb, err := h2cGet(fmt.Sprintf("10.0.3.%d", 230+r.Intn(10)), fmt.Sprintf("10.0.0.1:%d", vport), method, host, target, hh, 20*time.Second)
 			if err != nil {
 				hist("GET(h2c) %s host=%s -> error %v", target, host, err)
 				if want != nil && want.authUser == "" {
@@ -377,10 +388,10 @@ func worldRoutes(w *World) {
 			var err error
 			if h2sess == nil {
 				w.Probe("routes.form_h2c_upgrade_first")
-				h2sess, resp, err = h2cUpgrade(fmt.Sprintf("10.0.3.%d", 240+r.Intn(10)), fmt.Sprintf("10.0.0.1:%d", vport), host, target, hh, 20*time.Second)
+				h2sess, resp, err = h2cUpgrade(fmt.Sprintf("10.0.3.%d", 240+r.Intn(10)), fmt.Sprintf("10.0.0.1:%d", vport), method, host, target, hh, 20*time.Second)
 			} else {
 				w.Probe("routes.form_h2c_upgrade_next")
-				resp, err = h2sess.Get(host, target, hh, 20*time.Second)
+				resp, err = h2sess.Do(method, host, target, hh, 20*time.Second)
 				if err != nil || r.Intn(4) == 0 {
 					h2sess.Close()
 					h2sess = nil
@@ -404,7 +415,7 @@ func worldRoutes(w *World) {
 				viol("C06", "connect", "vhost-port-refused", "%v", err)
 				return
 			}
-			fmt.Fprintf(c, "GET %s HTTP/1.0\r\nHost: %s\r\nX-Marker: %s\r\n%s\r\n", target, host, marker, strings.Join(append(hs, ""), "\r\n"))
+			fmt.Fprintf(c, "%s %s HTTP/1.0\r\nHost: %s\r\nX-Marker: %s\r\n%s\r\n", method, target, host, marker, strings.Join(append(hs, ""), "\r\n"))
 			c.SetReadDeadline(time.Now().Add(20 * time.Second))
 			var err2 error
 			got, err2 = readRawMsg(bufio.NewReader(c), false, false)
@@ -431,7 +442,7 @@ func worldRoutes(w *World) {
 				kc = &kconn{c, bufio.NewReader(c)}
 				pool = append(pool, kc)
 			}
-			fmt.Fprintf(kc.c, "GET %s HTTP/1.1\r\nHost: %s\r\nX-Marker: %s\r\n%s\r\n", target, host, marker, strings.Join(append(hs, ""), "\r\n"))
+			fmt.Fprintf(kc.c, "%s %s HTTP/1.1\r\nHost: %s\r\nX-Marker: %s\r\n%s\r\n", method, target, host, marker, strings.Join(append(hs, ""), "\r\n"))
 			kc.c.SetReadDeadline(time.Now().Add(20 * time.Second))
 			var err error
 			got, err = readRawMsg(kc.br, false, false)
@@ -452,7 +463,7 @@ func worldRoutes(w *World) {
 			}
 		}
 		served := strings.Join(got.get("X-Served-By"), ",")
-		hist("GET(%s) %s host=%s user=%q abs=%v auth=%q/%q proxyauth=%q -> %d %s", form, target, host, reqUser, absolute, authUser, authPwd, proxyUser, got.Status, served)
+		hist("%s(%s) %s host=%s user=%q abs=%v auth=%q/%q proxyauth=%q -> %d %s", method, form, target, host, reqUser, absolute, authUser, authPwd, proxyUser, got.Status, served)
 		// who saw the marker?
 		var sawBy []string
 		var sawRoute *route
